@@ -24,6 +24,11 @@ type Fault struct {
 	Panics bool   // Go semantics: executing Stmts panics
 	Msg    string // substring of the gc panic text ("" = not checked)
 	NoTmpl bool   // not usable inside a template {%% %%} block
+	// TmplOnly: the statements use template-only syntax (the contains operator):
+	// not placed in programs and not valid Go.
+	TmplOnly bool
+	// Go: the statements use the go statement: the case is built with AllowGoStmt.
+	Go bool
 }
 
 // declS is shared by the faults that need a struct type.
@@ -194,6 +199,22 @@ var Faults = []Fault{
 	{Name: "native_var_nil_map", Stmts: "pkg.NilMap[\"a\"] = 1", Panics: true, Msg: "assignment to entry in nil map"},
 	{Name: "native_var_index", Stmts: "i := 9\nprint(pkg.Ints[i])", Panics: true, Msg: "index out of range [9] with length 3"},
 	{Name: "native_callback_nil", Stmts: "var f func()\npkg.MaybeCall(f)"},
+	// the contains operator of templates (its map, slice and string forms are evaluated
+	// by the If instruction)
+	{Name: "contains_map_unhashable_key", TmplOnly: true, Stmts: "m := map[any]int{}\nvar k any = []int{1}\nprint(m contains k)", Panics: true, Msg: "hash of unhashable type"},
+	{Name: "not_contains_map_unhashable_key", TmplOnly: true, Stmts: "m := map[any]int{1: 1}\nvar k any = map[string]int{}\nprint(m not contains k)", Panics: true, Msg: "hash of unhashable type"},
+	{Name: "contains_map_func_key", TmplOnly: true, Stmts: "m := map[any]string{}\nvar k any = func() {}\nif m contains k {\n\tprint(1)\n}", Panics: true, Msg: "hash of unhashable type"},
+	{Name: "contains_map_struct_key", TmplOnly: true, Stmts: "m := map[any]string{}\nvar k any = struct{ A any }{[]int{1}}\nprint(m contains k)", Panics: true, Msg: "hash of unhashable type"},
+	{Name: "contains_slice_uncomparable", TmplOnly: true, Stmts: "s := []any{1, []int{1}}\nvar k any = []int{1}\nprint(s contains k)", Panics: true, Msg: "comparing uncomparable type"},
+	{Name: "contains_slice_uncomparable_map", TmplOnly: true, Stmts: "s := []any{map[int]int{}}\nvar k any = map[int]int{}\nif s not contains k {\n\tprint(1)\n}", Panics: true, Msg: "comparing uncomparable type"},
+	{Name: "contains_array_uncomparable", TmplOnly: true, Stmts: "s := [2]any{func() {}, 1}\nvar k any = func() {}\nprint(s contains k)", Panics: true, Msg: "comparing uncomparable type"},
+	{Name: "contains_nil_map", TmplOnly: true, Stmts: "var m map[any]int\nvar k any = []int{1}\nprint(m contains k, m contains nil)"},
+	{Name: "contains_ok", TmplOnly: true, Stmts: "s := []any{1, \"a\", nil}\nvar k any = \"a\"\nprint(s contains k, s contains nil, \"abc\" contains \"b\", \"abc\" contains 'c', map[string]int{\"a\": 1} contains \"a\")"},
+	// go statements (built with AllowGoStmt)
+	{Name: "go_nil_func", Go: true, Stmts: "var f func()\ngo f()", Panics: true, Msg: "go of nil func value"},
+	{Name: "go_nil_func_args", Go: true, Stmts: "var f func(int, string)\ngo f(1, \"a\")", Panics: true, Msg: "go of nil func value"},
+	{Name: "go_nil_native_func", Go: true, Stmts: "go pkg.NilFunc()()", Panics: true, Msg: "go of nil func value"},
+	{Name: "go_ok", Go: true, Stmts: "c := make(chan int)\ngo func() {\n\tc <- 1\n}()\nprint(<-c)"},
 	// append / copy / string building (no fault, exercised for the conversion paths)
 	{Name: "append_nil", Stmts: "var a []int\na = append(a, 1, 2)\nvar b []int\na = append(a, b...)\nprint(len(a), copy(a, b))"},
 	{Name: "string_index_range", Stmts: "s := \"a\\xffb\"\nfor i, r := range s {\n\tprint(i, r)\n}"},
